@@ -54,24 +54,24 @@ TIERS = {
 FLOORS = {
     "quick": {
         "programs": 500,
-        "compared": 15000,
+        "compared": 12000,
         "distinct_nontrivial": 600,
-        "core_runs_dispatched": 8000,
+        "core_runs_dispatched": 7000,
         "core_runs_pinned": 6000,
         "events_compared": 60000,
-        "dm_events_expected_on_dm_core": 12000,
+        "dm_events_expected_on_dm_core": 11000,
         "compute_events_expected_on_compute_core": 12000,
         "dispatchable_events_filtered_out": 80000,
         "multi_block_programs": 80,
     },
     "thorough": {
         "programs": 15000,
-        "compared": 450000,
+        "compared": 360000,
         "distinct_nontrivial": 12000,
-        "core_runs_dispatched": 240000,
+        "core_runs_dispatched": 210000,
         "core_runs_pinned": 180000,
         "events_compared": 1800000,
-        "dm_events_expected_on_dm_core": 360000,
+        "dm_events_expected_on_dm_core": 330000,
         "compute_events_expected_on_compute_core": 360000,
         "dispatchable_events_filtered_out": 2400000,
         "multi_block_programs": 2400,
